@@ -709,7 +709,7 @@ func (p *Prog) inlineExplainingVars(fd *ast.FuncDecl) {
 			}
 			return false
 		case *ast.CallExpr:
-			if tv, ok := p.Info.Types[x.Fun]; ok && tv.IsType() && len(x.Args) == 1 && !top {
+			if tv, ok := p.Info.Types[x.Fun]; ok && tv.IsType() && len(x.Args) == 1 {
 				return explains(x.Args[0], deps, false)
 			}
 			return false
@@ -746,6 +746,47 @@ func (p *Prog) inlineExplainingVars(fd *ast.FuncDecl) {
 		}
 		return true
 	})
+	inlined := map[types.Object]bool{}
+	defer func() {
+		// a definition all of whose variables were inlined is dead: remove it
+		dead := func(s ast.Stmt) bool {
+			as, ok := s.(*ast.AssignStmt)
+			if !ok || as.Tok != token.DEFINE {
+				return false
+			}
+			for _, l := range as.Lhs {
+				id, ok := l.(*ast.Ident)
+				if !ok {
+					return false
+				}
+				if id.Name == "_" {
+					continue
+				}
+				if !inlined[p.Info.Defs[id]] {
+					return false
+				}
+			}
+			return len(as.Lhs) > 0
+		}
+		filter := func(list []ast.Stmt) []ast.Stmt {
+			out := list[:0]
+			for _, s := range list {
+				if !dead(s) {
+					out = append(out, s)
+				}
+			}
+			return out
+		}
+		ast.Inspect(fd.Body, func(n ast.Node) bool {
+			switch x := n.(type) {
+			case *ast.BlockStmt:
+				x.List = filter(x.List)
+			case *ast.CaseClause:
+				x.Body = filter(x.Body)
+			}
+			return true
+		})
+	}()
 	for _, cd := range cands {
 		valid := true
 		started := false
@@ -951,6 +992,7 @@ func (p *Prog) inlineExplainingVars(fd *ast.FuncDecl) {
 			continue
 		}
 		// substitute
+		inlined[cd.obj] = true
 		var sub func(e ast.Expr) ast.Expr
 		sub = func(e ast.Expr) ast.Expr {
 			switch x := e.(type) {
